@@ -1253,7 +1253,7 @@ func c07R3(c *Ctx) {
 		return
 	}
 	isMT := func(v ssa.Value) bool { return isFieldLoad(v, "MediaType") }
-	a, b := StringConstsComparedWith(im, isMT), StringConstsComparedWith(su, isMT)
+	a, b := c07StringSet(im, isMT, 0), c07StringSet(su, isMT, 0)
 	ok := len(a) > 0 && sameStrings(a, b)
 	c.Check(R, "IsManifest==Successors-cases", im.Pos(), ok,
 		ifelse(ok, fmt.Sprintf("both accept exactly %v", a), fmt.Sprintf("media types with outgoing edges %v differ from the types oci.Store.Push tags by digest %v: a kind that has successors but is not persisted in index.json loses its edges on reopen (or a persisted kind is never decoded)", b, a)))
@@ -1349,7 +1349,7 @@ func c07R2Algorithms(c *Ctx) {
 		if f.Signature.Results().Len() != 1 || !types.Identical(f.Signature.Results().At(0).Type(), types.Typ[types.Bool]) {
 			continue
 		}
-		got := StringConstsComparedWith(f, isAlg)
+		got := c07StringSet(f, isAlg, 0)
 		if len(got) == 0 {
 			continue
 		}
@@ -1371,4 +1371,105 @@ func c07R2Algorithms(c *Ctx) {
 	if n == 0 {
 		c.OK(R, "~/content/oci|gc-knows-every-digest-algorithm", token.NoPos, "the OCI store has no algorithm filter (every directory is swept or none)")
 	}
+}
+
+// c07StringSet: the constant strings fn compares the subject with, in any of
+// the forms switch/if comparisons, lookup in a package-level map literal
+// (`table[x]`, keys whose value is not the constant false), slices.Contains
+// over a package-level slice literal, or a call of an in-module function that
+// does one of these with the subject as its argument.
+func c07StringSet(fn *ssa.Function, isSubject func(v ssa.Value) bool, depth int) []string {
+	set := map[string]bool{}
+	for _, s := range StringConstsComparedWith(fn, isSubject) {
+		set[s] = true
+	}
+	globalOf := func(v ssa.Value) *ssa.Global {
+		u, ok := strip(v).(*ssa.UnOp)
+		if !ok || u.Op != token.MUL {
+			return nil
+		}
+		g, _ := u.X.(*ssa.Global)
+		return g
+	}
+	AllInstrs(fn, func(in ssa.Instruction) {
+		switch x := in.(type) {
+		case *ssa.Lookup:
+			if g := globalOf(x.X); g != nil && isSubject(x.Index) {
+				for _, k := range c07GlobalLiteralStrings(g) {
+					set[k] = true
+				}
+			}
+		case *ssa.Call:
+			n := CalleeName(x)
+			if (n == "slices.Contains" || n == "slices.Index") && len(x.Call.Args) == 2 && isSubject(x.Call.Args[1]) {
+				if g := globalOf(x.Call.Args[0]); g != nil {
+					for _, k := range c07GlobalLiteralStrings(g) {
+						set[k] = true
+					}
+				}
+			}
+			if h := StaticCallee(x); h != nil && inModule(h) && len(h.Blocks) > 0 && depth < 2 {
+				for i, a := range x.Call.Args {
+					if isSubject(a) && i < len(h.Params) {
+						p := h.Params[i]
+						for _, k := range c07StringSet(h, func(v ssa.Value) bool { return strip(v) == ssa.Value(p) }, depth+1) {
+							set[k] = true
+						}
+					}
+				}
+			}
+		}
+	})
+	var out []string
+	for k := range set {
+		out = append(out, k)
+	}
+	sort.Strings(out)
+	return out
+}
+
+// c07GlobalLiteralStrings: the constant string keys (map literal) or elements
+// (slice/array literal) a package-level variable is initialised with.
+func c07GlobalLiteralStrings(g *ssa.Global) []string {
+	init := g.Pkg.Func("init")
+	if init == nil {
+		return nil
+	}
+	var out []string
+	AllInstrs(init, func(in ssa.Instruction) {
+		st, ok := in.(*ssa.Store)
+		if !ok || st.Addr != ssa.Value(g) {
+			return
+		}
+		switch v := st.Val.(type) {
+		case *ssa.MakeMap:
+			for _, r := range *v.Referrers() {
+				mu, ok := r.(*ssa.MapUpdate)
+				if !ok || mu.Map != ssa.Value(v) {
+					continue
+				}
+				if k, isK := mu.Value.(*ssa.Const); isK && k.Value != nil && k.Value.String() == "false" {
+					continue
+				}
+				if s, ok := constString(mu.Key); ok {
+					out = append(out, s)
+				}
+			}
+		case *ssa.Slice:
+			if a, ok := v.X.(*ssa.Alloc); ok {
+				for _, r := range *a.Referrers() {
+					if ia, ok := r.(*ssa.IndexAddr); ok {
+						for _, r2 := range *ia.Referrers() {
+							if s2, ok := r2.(*ssa.Store); ok && s2.Addr == ssa.Value(ia) {
+								if s, ok := constString(s2.Val); ok {
+									out = append(out, s)
+								}
+							}
+						}
+					}
+				}
+			}
+		}
+	})
+	return out
 }
